@@ -9,7 +9,7 @@ import kv
 
 ID = 'C05'
 COQ_MODELS = ['MQV', 'MPose']
-COQ_HEADER = 'From KV.Model Require Import MQV MPose.'
+COQ_HEADER = 'From Coq Require Import Uint63.\nFrom KV.Model Require Import MQV MPose.'
 CASE_TYPE = 'MPose.case'
 CHECK_FN = 'MPose.check_case'
 SHARD_SIZE = 12
@@ -141,7 +141,7 @@ def _valid_case(rng, n=None, qcls=None, tcls=None):
     mag = rng.choice([1.0, 1e3, 1e6, 1e-2])
     splits = sorted(rng.sample(range(1, n), min(n - 1, 2))) if n > 1 else []
     inv_of = sorted(rng.sample(range(n), min(n, 2)))
-    return {'kind': 'valid', 'poses': poses, 'points': gen_points(rng, npts, ncols, mag), 'ncols': ncols,
+    return {'kind': 'valid', 'direct_max': rng.choice([2, 2, 2, 3]), 'poses': poses, 'points': gen_points(rng, npts, ncols, mag), 'ncols': ncols,
             'splits': splits, 'inv_of': inv_of, 'qclass': qmode, 'tclass': tmode}
 
 
@@ -209,9 +209,10 @@ def _finite_pose(spec):
 class _Runner:
     """Makes calls on the real PoseTransform, records (inputs, outcome) of each, and snapshots operands."""
 
-    def __init__(self):
+    def __init__(self, direct_max=2):
         from kapture import PoseTransform
         self.P = PoseTransform
+        self.direct_max = direct_max
         self.calls = []
         self.mutations = []
 
@@ -219,19 +220,30 @@ class _Runner:
         r, t = spec['r'], spec['t']
         return self.P(r=(list(r) if r is not None else None), t=(list(t) if t is not None else None))
 
-    def compose(self, objs):
-        before = [_bits(o) for o in objs]
-        specs = [_spec_of(o) for o in objs]
-        res = None
+    def _compose1(self, objs):
         try:
             res = self.P.compose(list(objs))
             spec = _spec_of(res)
-            out = {'status': 'ok', **spec} if _finite_pose(spec) else {'status': 'nonfinite'}
+            return res, ({'status': 'ok', **spec} if _finite_pose(spec) else {'status': 'nonfinite'})
         except Exception as e:  # the implementation's exception is an observed outcome
-            out = {'status': 'raises', 'exc': type(e).__name__}
+            return None, {'status': 'raises', 'exc': type(e).__name__}
+
+    def compose(self, objs):
+        """compose(objs) on the real code.  Chains longer than direct_max are recorded together with the
+        results of compose on every prefix (MPose.CChain), shorter ones as one call (MPose.CCompose)."""
+        before = [_bits(o) for o in objs]
+        specs = [_spec_of(o) for o in objs]
+        if len(objs) > self.direct_max:
+            outs = []
+            for k in range(1, len(objs) + 1):
+                res, out = self._compose1(objs[:k])
+                outs.append(out)
+            self.calls.append({'op': 'chain', 'in': specs, 'outs': outs, 'out': out})
+        else:
+            res, out = self._compose1(objs)
+            self.calls.append({'op': 'compose', 'in': specs, 'out': out})
         if [_bits(o) for o in objs] != before:
             self.mutations.append('compose')
-        self.calls.append({'op': 'compose', 'in': specs, 'out': out})
         return res if out['status'] == 'ok' else None
 
     def inverse(self, obj):
@@ -281,7 +293,7 @@ def _arr(case):
 
 
 def run_impl(case, ctx):
-    R = _Runner()
+    R = _Runner(case.get('direct_max', 2))
     objs = [R.mk(s) for s in case['poses']]
     law = {'assoc': [], 'inv': []}
     X = _arr(case)
@@ -410,12 +422,28 @@ def oracle(case, obs):
 
 
 # ------------------------------------------------------------------------------------------ Coq encoding
+def _cf(x):
+    """An IEEE double as an exact Coq Q term: (+/-) m * 2^(+/-)e with primitive-integer m (odd or 0) and e."""
+    x = float(x)
+    if x == 0.0:
+        return '(fpp 0 0)'
+    num, den = abs(x).as_integer_ratio()      # lowest terms; one of them is a power of two
+    if den == 1:
+        e = (num & -num).bit_length() - 1
+        m = num >> e
+        assert m < 2 ** 62 and e < 2 ** 20
+        return '(%s %d %d)' % ('fnp' if x < 0 else 'fpp', m, e)
+    e = den.bit_length() - 1
+    assert num < 2 ** 62 and den == 1 << e
+    return '(%s %d %d)' % ('fnn' if x < 0 else 'fpn', num, e)
+
+
 def _cquat(r):
-    return 'None' if r is None else '(Some (mkQ %s %s %s %s))' % tuple(kv.cq(float(x)) for x in r)
+    return 'None' if r is None else '(Some (mkQ %s %s %s %s))' % tuple(_cf(x) for x in r)
 
 
 def _cvec(t):
-    return '(mkV %s %s %s)' % tuple(kv.cq(float(x)) for x in t)
+    return '(mkV %s %s %s)' % tuple(_cf(x) for x in t)
 
 
 def _copose(s):
@@ -434,10 +462,13 @@ def encode(case, obs):
     for c in obs['calls']:
         if c['op'] == 'compose':
             terms.append('CCompose %s %s' % (kv.clist(_copose(s) for s in c['in']), _cout_pose(c['out'])))
+        elif c['op'] == 'chain':
+            terms.append('CChain %s %s' % (kv.clist(_copose(s) for s in c['in']),
+                                           kv.clist(_cout_pose(o) for o in c['outs'])))
         elif c['op'] == 'inverse':
             terms.append('CInverse %s %s' % (_copose(c['in']), _cout_pose(c['out'])))
         else:
-            rows = kv.clist(kv.clist(kv.cq(float(x)) for x in row) for row in c['rows'])
+            rows = kv.clist(kv.clist(_cf(x) for x in row) for row in c['rows'])
             o = c['out']
             if o['status'] == 'ok':
                 out = '(Ok %s)' % kv.clist(_cvec(p) for p in o['pts'])
